@@ -32,15 +32,17 @@ def render(seq, gtf=False):
     for k in seq:
         if k == "D":
             nd += 1
-            lines.append("##dir%d v%d" % (nd, nd))
+            # odd ones end in a blank (trailing blanks belong to the directive); even ones hold a character that only
+            # str.splitlines() takes for a line end
+            lines.append(("##dir%d v%d " if nd % 2 else "##dir%d v%d\x85w") % (nd, nd))
         elif k == "T":
             lines.append("###")
         elif k == "E":
             lines.append("##")
         elif k == "C":
-            lines.append("#comment %d" % len(lines))
+            lines.append("#comment %d\u2028c9\ts\tgene\t1\t2\t.\t+\t.\tID=not-a-feature" % len(lines))      # U+2028 is not a line end
         elif k == "P":
-            lines.append("#!genome-build GRCh%d" % len(lines))
+            lines.append("#!genome-build GRCh%d\x0c##not-a-directive" % len(lines))        # nor is a form feed
         elif k == "B":
             lines.append("")
         elif k == "F":
